@@ -12,7 +12,7 @@ from typing import Any, Callable, Dict, List, Optional
 import z3
 
 from . import REPO
-from .engine import (ClassTable, Ctx, Env, Interp, Obligation, PathEnd, PyRaise, RestartPath, ReturnSignal, Unsupported, ExcVal, zbool)
+from .engine import (ClassTable, Closure, Ctx, Env, Interp, Obligation, PathEnd, PyRaise, RestartPath, ReturnSignal, Unsupported, ExcVal, zbool)
 
 _module_cache: Dict[str, tuple] = {}
 _class_table: Optional[ClassTable] = None
@@ -98,6 +98,7 @@ class Setup:
     drop_calls: tuple = ()
     data: dict = field(default_factory=dict)  # whatever post()/raises() need (old values, ghost)
     watch: dict = field(default_factory=dict)  # name -> z3 term whose model value a replay needs
+    inline: dict = field(default_factory=dict)  # name -> "module:qualname": real helper functions interpreted with their own body
 
 
 @dataclass
@@ -172,6 +173,12 @@ def run_unit(unit: Unit, forced: Optional[int] = None) -> UnitResult:
                 canary_done = True
             interp = Interp(ctx, fn, calls=_Recording(st.calls, used), consts=st.consts, loops=st.loops, cms=_Recording(st.cms, used), hooks=st.hooks, symcall=st.symcall, drop_calls=st.drop_calls, impure=impure)
             env = Env(st.env)
+            for nm, tgt in st.inline.items():
+                m2, q2 = tgt.split(":")
+                loc2 = find_function(m2, q2)
+                if loc2 is None:
+                    raise Unsupported(f"inlined helper {tgt} not found")
+                env.set(nm, Closure(loc2[0], Env(), nm))
             try:
                 interp.exec_block(fn.body, env)
                 result = None
